@@ -172,6 +172,8 @@ def check_case(prog, inputs, flags, res):
     c["compared"] = c.get("compared", 0) + 1
     if G.has_structure(prog):
         res["keys"].append(harness.short_hash([text, inputs, flags]))
+    for tag in node_tags(prog, set()):
+        c["uses:" + tag] = c.get("uses:" + tag, 0) + 1
     d0 = compare(e0, got, flags)
     if got.get("shapes"):
         c["trace_boundaries_observed"] = c.get("trace_boundaries_observed", 0) + len(got["shapes"])
@@ -251,6 +253,36 @@ def features(body, acc, after_mod=False, parent=None):
             seen_mod = True
         elif k == "el" and node[1] == "n":
             acc.add("n")
+    return acc
+
+
+def node_tags(body, acc):
+    """Which elements / structure kinds / modifiers a compared program contains (evidence only)."""
+    for node in body:
+        k = node[0]
+        if k == "el":
+            acc.add(node[1])
+        elif k == "mod":
+            acc.add("mod" + node[1])
+            node_tags(node[2], acc)
+        elif k in ("num", "vset", "vget", "brk", "rec", "call", "probe_exec"):
+            acc.add(k)
+        else:
+            acc.add(k)
+            if k in ("if", "list"):
+                for b in node[1]:
+                    node_tags(b, acc)
+            elif k == "for":
+                node_tags(node[2], acc)
+            elif k == "while":
+                node_tags(node[1] or [], acc)
+                node_tags(node[2], acc)
+            elif k == "lam":
+                node_tags(node[2], acc)
+            elif k in ("map", "filter", "sort"):
+                node_tags(node[1], acc)
+            elif k == "def":
+                node_tags(node[3], acc)
     return acc
 
 
